@@ -1,14 +1,16 @@
-"""C17, HTML half -- documents whose tag and attribute names range over the WHOLE documented name alphabet.
+"""C17, HTML half -- documents whose tag and attribute names range over the WHOLE XML name alphabet.
 
-The library documents which characters make a tag or attribute name: "Limited XML spec:
+The library says which characters make a tag or attribute name: "XML spec:
 https://www.w3.org/TR/xml/#NT-NameStartChar / #NT-NameChar" (comment in emmet/html_matcher/utils.py).  The
 facts are hard-coded here from the specification itself (XML 1.0 Fifth Edition, section 2.3, productions
-[4] NameStartChar and [4a] NameChar), restricted -- as the library's "limited" says -- to code points below
-U+2000.  Nothing is read from the library.
+[4] NameStartChar and [4a] NameChar), complete: all planes.  (Before the repair recorded in
+known_findings.d/xmlnames.json the library cut the productions at U+1FFF and this file did the same.)  Nothing is
+read from the library.
 
     [4]  NameStartChar ::= ":" | [A-Z] | "_" | [a-z] | [#xC0-#xD6] | [#xD8-#xF6] | [#xF8-#x2FF]
-                           | [#x370-#x37D] | [#x37F-#x1FFF] | (ranges from #x200C upward: outside the limit)
-    [4a] NameChar      ::= NameStartChar | "-" | "." | [0-9] | #xB7 | [#x0300-#x036F] | (#x203F-#x2040: outside)
+                           | [#x370-#x37D] | [#x37F-#x1FFF] | [#x200C-#x200D] | [#x2070-#x218F] | [#x2C00-#x2FEF]
+                           | [#x3001-#xD7FF] | [#xF900-#xFDCF] | [#xFDF0-#xFFFD] | [#x10000-#xEFFFF]
+    [4a] NameChar      ::= NameStartChar | "-" | "." | [0-9] | #xB7 | [#x0300-#x036F] | [#x203F-#x2040]
 
 `name_documents(rng, n_random)` yields html_gen.Doc records (same record type as the C09 generator, so the C17
 oracles of html_util apply unchanged):
@@ -19,19 +21,29 @@ oracles of html_util apply unchanged):
     single quoted, unquoted, expression, boolean) plus a `class` attribute whose tokens carry the character;
   * random documents whose names are drawn from the whole alphabet (weighted towards the boundaries and
     towards one code point per Unicode block);
-  * the code points just OUTSIDE the ranges (U+00D7, U+00F7, U+00BF, U+00B6, U+00B8, U+037E, `@`, `[`, backtick, `/`, `;`) appear where the record is
-    still unambiguous: inside quoted values, class tokens and text (never in a name, never unquoted).
+  * the code points just OUTSIDE the ranges (U+00D7, U+00F7, U+00BF, U+00B6, U+00B8, U+037E, U+2000, U+200B, U+200E,
+    U+203E, U+2041, U+206F, U+2190, U+2BFF, U+2FF0, U+3000, U+E000, U+F8FF, U+FDD0, U+FDEF, U+FFFE, U+FFFF, U+F0000,
+    U+10FFFF, `@`, `[`, backtick, `/`, `;`) appear where the record is still unambiguous: inside quoted values, class
+    tokens and text (never in a name, never unquoted).  (The surrogate code points U+D800..U+DFFF border a range too;
+    they are no characters of a document and occur in the character-class sweep of C09 only.)
 """
 import html_gen
 from html_gen import Attr, Doc, Elem, words
 
-# XML 1.0 (Fifth Edition) section 2.3 [4], code points below U+2000
+# XML 1.0 (Fifth Edition) section 2.3 [4]
 NAME_START_RANGES = [(0x3A, 0x3A), (0x41, 0x5A), (0x5F, 0x5F), (0x61, 0x7A), (0xC0, 0xD6), (0xD8, 0xF6), (0xF8, 0x2FF),
-                     (0x370, 0x37D), (0x37F, 0x1FFF)]
-# XML 1.0 (Fifth Edition) section 2.3 [4a], what NameChar adds, code points below U+2000
-NAME_EXTRA_RANGES = [(0x2D, 0x2D), (0x2E, 0x2E), (0x30, 0x39), (0xB7, 0xB7), (0x300, 0x36F)]
+                     (0x370, 0x37D), (0x37F, 0x1FFF), (0x200C, 0x200D), (0x2070, 0x218F), (0x2C00, 0x2FEF),
+                     (0x3001, 0xD7FF), (0xF900, 0xFDCF), (0xFDF0, 0xFFFD), (0x10000, 0xEFFFF)]
+# XML 1.0 (Fifth Edition) section 2.3 [4a], what NameChar adds
+NAME_EXTRA_RANGES = [(0x2D, 0x2D), (0x2E, 0x2E), (0x30, 0x39), (0xB7, 0xB7), (0x300, 0x36F), (0x203F, 0x2040)]
 # neighbours of the ranges that are NOT name characters (used in values / text only)
-OUTSIDE_NONASCII = [0xD7, 0xF7, 0xBF, 0xB6, 0xB8, 0x37E]      # class tokens, quoted values, text
+OUTSIDE_NONASCII = [0xD7, 0xF7, 0xBF, 0xB6, 0xB8, 0x37E,      # class tokens, quoted values, text
+                    0x2000, 0x200B, 0x200E, 0x203E, 0x2041, 0x206F, 0x2190, 0x2BFF, 0x2FF0, 0x3000, 0xE000, 0xF8FF,
+                    0xFDD0, 0xFDEF, 0xFFFE, 0xFFFF, 0xF0000, 0x10FFFF]
+# code points inside the long ranges where an implementation working on UTF-16 units or on a truncated table would
+# change its answer: plane borders, the last BMP letters, the first astral letters of the planes in use
+INNER_POINTS = [0x3041, 0x4E00, 0x65E5, 0x672C, 0x9FFF, 0xA000, 0xAC00, 0xD7A3, 0xFFFD, 0x1FFFF, 0x20000, 0x2A6DF, 0x2FFFF,
+                0x30000, 0xDFFFF, 0xE0000, 0xE0100]
 OUTSIDE_ASCII = [0x40, 0x5B, 0x60, 0x2F, 0x3B]                 # quoted values and text only
 
 
@@ -44,7 +56,7 @@ def boundary_points(ranges):
     return out
 
 
-START_BOUNDARY = boundary_points(NAME_START_RANGES)
+START_BOUNDARY = boundary_points(NAME_START_RANGES) + INNER_POINTS
 EXTRA_BOUNDARY = boundary_points(NAME_EXTRA_RANGES)
 
 
@@ -58,11 +70,18 @@ def rand_start_cp(rng):
         return rng.choice(START_BOUNDARY)
     if r < 0.55:
         return rng.randint(0x61, 0x7A)
-    if r < 0.75:
+    if r < 0.7:
         # one code point of a random 128-block below U+2000 (Latin Extended, IPA, Greek, Cyrillic, Armenian, Hebrew,
         # Arabic, Indic, Thai, Georgian, Hangul Jamo, Ethiopic, Cherokee, Khmer, Mongolian, Greek Extended ...)
         for _ in range(20):
             c = rng.randrange(0x80, 0x2000)
+            if is_name_start(c):
+                return c
+    if r < 0.85:
+        # ... or of the BMP above it (letterlike symbols, Glagolitic, Coptic, Kana, CJK, Yi, Hangul, presentation
+        # forms, fullwidth forms) or of an astral plane
+        for _ in range(20):
+            c = rng.randrange(0x2000, 0x10000) if rng.random() < 0.6 else rng.randrange(0x10000, 0xF0000)
             if is_name_start(c):
                 return c
     lo, hi = rng.choice(NAME_START_RANGES)
